@@ -21,7 +21,7 @@ from ..harness import OPTS, Compiled, cs_compile, np_step, read_next
 from ..layout import Layout
 from ..netgen import MODEL_PARAMS, all_specs, harness_specs
 from ..parallel import run_shards, shards_of
-from ..spec import NetSpec, build
+from ..spec import NetSpec, build, build_edited
 from .. import refmodel, valgen
 
 INF = float("inf")
@@ -196,6 +196,32 @@ def check_spec(spec: NetSpec, label, st: Stats, tier, palette_seed, light=False)
                     bad(f"C07/casadi-eval/exception/{exc_site(e)}/{type(e).__name__}",
                         f"{sym} evaluating compact={compact}: {exc_text(e)}", phase="casadi-eval", sym=sym, P=P,
                         compact=compact, more_out=more_out)
+    # 4b. the same network reached by editing another, already stepped network in place (non-initial state)
+    for emode in ("links", "attachments", "replace"):
+        for sym in (("SX",) if light else ("SX", "MX")):
+            st.inc("executions")
+            st.inc("transitions", 3)
+            try:
+                eng = env.casadi_engine(sym)
+                built = build_edited(spec, P0, emode, engine=eng)
+                ok, msgs = built.net.is_valid()
+                if not ok:
+                    bad("C07/valid-network-rejected", f"edited ({emode}) network: is_valid -> {msgs}", phase="edited", emode=emode)
+                    continue
+                built.net.step(engine=eng, **P0)
+                F = eng.to_function(built.net, compact=2, more_out=True, **P0)
+                comp0 = Compiled(eng.to_function(built.net, compact=0), built)
+                outs = comp0.eval_many(vecs[:2])
+                for val, o in zip(vecs[:2], outs):
+                    if refmodel.step(spec, val, P0).undefined:
+                        continue
+                    for slot, arr in o.items():
+                        if not np.all(np.isfinite(arr)):
+                            bad(f"C07/casadi/nonfinite/{kind_of(spec, slot[0])}", f"{sym} edited ({emode}) network: output {slot} = "
+                                f"{arr.tolist()}", phase="edited", sym=sym, emode=emode)
+            except Exception as e:  # noqa: BLE001
+                bad(f"C07/edited/exception/{exc_site(e)}/{type(e).__name__}",
+                    f"{sym}, network edited in place ({emode}) after a step: {exc_text(e)}", phase="edited", sym=sym, emode=emode)
     # 5. positivity options -----------------------------------------------------------
     base = valgen.base_vector(spec, 0)
     for opts in (option_sets(tier)[-1:] if light else option_sets(tier)[1:]):
@@ -236,6 +262,42 @@ def worker(item):
     return st
 
 
+def worker_invalid(item):
+    """Networks the independent predicate calls INVALID: if the real validation accepts one anyway (C06's finding),
+    then C07's antecedent holds for it and it must be steppable - report when it is not."""
+    from ..spec import LinkS, OriginS, DestS, spec_valid
+    n, edge_sets = item
+    st = Stats()
+    P0 = MODEL_PARAMS[0]
+    for edges in edge_sets:
+        for ocls in itertools.product((None, "ideal", "ramp_out"), repeat=n):
+            for dcls in itertools.product((None, "free"), repeat=n):
+                spec = NetSpec(n, tuple(LinkS(u, v) for u, v in edges),
+                               tuple(OriginS(i, k) for i, k in enumerate(ocls) if k), tuple(DestS(i, k) for i, k in enumerate(dcls) if k))
+                if spec_valid(spec):
+                    continue
+                st.inc("invalid_graphs_probed")
+                try:
+                    b = build(spec)
+                    ok, msgs = b.net.is_valid()
+                except Exception:  # noqa: BLE001
+                    continue  # crashes of validation itself are C06's business
+                if not ok:
+                    continue
+                st.inc("invalid_graphs_accepted")
+                try:
+                    b.net.step(engine=env.numpy_engine(np.float64(27.5)), **P0)
+                    eng = env.casadi_engine("SX")
+                    b2 = build(spec)
+                    b2.net.step(engine=eng, **P0)
+                    eng.to_function(b2.net, compact=0)
+                except Exception as e:  # noqa: BLE001
+                    st.violation(f"C07/accepted-invalid-network-cannot-be-stepped/{exc_site(e)}/{type(e).__name__}",
+                                 f"{spec.short()}: validation accepts this network, but {exc_text(e)}",
+                                 {"spec": spec.describe(), "config": "invalid-by-predicate", "phase": "accepted-invalid"})
+    return st
+
+
 def spec_list(tier, seed):
     pal = seed % 3
     if tier == "quick":
@@ -256,6 +318,12 @@ def explore(tier, seed, nproc):
     specs, bounds = spec_list(tier, seed)
     shards = [(tier, seed, sh) for sh in shards_of(specs, nproc * 6)]
     st = run_shards(worker, shards, nproc)
+    inv_items = []
+    for n in (1, 2, 3):
+        pairs = [(u, v) for u in range(n) for v in range(n)]
+        sets = [e for m in range(0, 4) for e in itertools.combinations(pairs, m)]
+        inv_items += [(n, sh) for sh in shards_of(sets, 16)]
+    st.merge(run_shards(worker_invalid, inv_items, nproc))
     cov = {
         "bounds": bounds,
         "networks": len(specs),
@@ -275,6 +343,20 @@ def explore(tier, seed, nproc):
 def replay(case):
     spec = NetSpec.from_json(case["spec"])
     st = Stats()
+    if case.get("phase") == "accepted-invalid":
+        try:
+            b = build(spec)
+            ok, msgs = b.net.is_valid()
+            if not ok:
+                return [f"network {spec.short()} is rejected by validation: {msgs}"], False
+            b.net.step(engine=env.numpy_engine(np.float64(27.5)), **MODEL_PARAMS[0])
+            eng = env.casadi_engine("SX")
+            b2 = build(spec)
+            b2.net.step(engine=eng, **MODEL_PARAMS[0])
+            eng.to_function(b2.net, compact=0)
+            return [f"network {spec.short()} accepted and stepped"], False
+        except Exception as e:  # noqa: BLE001
+            return [f"network {spec.short()}: accepted by validation but {exc_text(e)}"], True
     problems = check_spec(spec, case.get("config", "?"), st, "quick", 0)
     lines = [f"network {spec.short()} ({case.get('config')})"]
     for sig, msg, extra in problems:
